@@ -254,6 +254,10 @@ def fieldRules : String → List (String × Rule)
      ("gaussian_noise_p", .prob), ("contrast_min", .ge0), ("contrast_max", .ge0),
      ("contrast_p", .prob), ("brightness_p", .prob)]
   | "GeometricConfig" => [("affine_p", .prob), ("erase_p", .prob), ("mixup_p", .prob)]
+  | "ConvNextConfig" => [("model_type", .oneOf ["tiny", "small", "base", "large"])]
+  | "ConvNextSmallConfig" => [("model_type", .oneOf ["tiny", "small", "base", "large"])]
+  | "ConvNextBaseConfig" => [("model_type", .oneOf ["tiny", "small", "base", "large"])]
+  | "ConvNextLargeConfig" => [("model_type", .oneOf ["tiny", "small", "base", "large"])]
   | "SwinTConfig" => [("model_type", .oneOf ["tiny", "small", "base"])]
   | "SwinTSmallConfig" => [("model_type", .oneOf ["tiny", "small", "base"])]
   | "SwinTBaseConfig" => [("model_type", .oneOf ["tiny", "small", "base"])]
